@@ -706,3 +706,27 @@ def fam_dde(seed=0, n=10):
             edges.append(EdgeSpec('n2/li/x', 'n1/li/u', fp(), delay=rnd.choice([F(1, 2), F(1), F(2)])))
         out.append((f"F10:{seed}:{k}:{notation}:v{variant}", ModelSpec('m', ops, nodes, edges, note="DDE model")))
     return out
+
+
+def fam_dde_edges_fixed():
+    """C10: delayed edges under an adaptive solver (history look-ups): fan-out of one source with different delays,
+    several sources, fan-in"""
+    E = EdgeSpec
+
+    def mk(n, edges_fn, note):
+        fp = FP()
+        ops = {'li': op_leaky(fp)}
+        ops['li'].vars['u'] = ('input', F(0))
+        nodes = {f"a{i}": NodeSpec(['li'], _node_overrides(fp, ops, ['li'])) for i in range(n)}
+        return ModelSpec('m', ops, nodes, edges_fn(fp), note=note)
+    return [
+        ("F10x:fanout-two-delays", mk(3, lambda fp: [E('a0/li/x', 'a1/li/u', fp(), delay=F(1, 2)),
+                                                     E('a0/li/x', 'a2/li/u', fp(), delay=F(1))], "one source, two delays")),
+        ("F10x:fanout-mixed", mk(4, lambda fp: [E('a0/li/x', 'a1/li/u', fp(), delay=F(1, 2)),
+                                                E('a1/li/x', 'a2/li/u', fp(), delay=F(1)),
+                                                E('a0/li/x', 'a3/li/u', fp(), delay=F(3, 2))], "three delays, two sources")),
+        ("F10x:fanin-two-delays", mk(3, lambda fp: [E('a0/li/x', 'a2/li/u', fp(), delay=F(1, 2)),
+                                                    E('a1/li/x', 'a2/li/u', fp(), delay=F(1))], "two sources into one target")),
+        ("F10x:ring", mk(3, lambda fp: [E('a0/li/x', 'a1/li/u', fp(), delay=F(1, 2)), E('a1/li/x', 'a2/li/u', fp(), delay=F(1)),
+                                        E('a2/li/x', 'a0/li/u', fp(), delay=F(3, 4))], "ring, three delays")),
+    ]
